@@ -90,6 +90,13 @@ def reject_kinds(tr, rng, tmpdir):
     if usedv:
         add('undeclare.used', usedv[0], lambda: b.undeclare_vars(usedv[0]))
     add('undeclare.unknown', 'zz', lambda: b.undeclare_vars('zz_undeclared'))
+    unusedv = [x for x, l in b.vars.items() if l not in used]
+    if unusedv and usedv:
+        add('undeclare.unused_then_used', (unusedv[0], usedv[0]),
+            lambda: b.undeclare_vars(unusedv[0], usedv[0]))
+    if unusedv:
+        add('undeclare.unused_then_unknown', (unusedv[0], 'zz'),
+            lambda: b.undeclare_vars(unusedv[0], 'zz_undeclared'))
     add('file.missing', 'nofile.p', lambda: b.load(os.path.join(tmpdir, 'does_not_exist.p')))
     add('file.extension', 'x.txt', lambda: b.load(os.path.join(tmpdir, 'x.txt')))
     garbage = os.path.join(tmpdir, 'garbage_%d.p' % os.getpid())
@@ -128,6 +135,10 @@ def inject_history(tid, seed, nvars, steps, tmpdir, dyn=False, p_inject=0.3):
     for nm in names:
         tr.add_var(nm)
     b = tr.bdd
+    spare = history.ALL_NAMES[nvars:nvars + 2]     # declared, never used
+    tr.names = names + spare
+    for nm in spare:
+        tr.add_var(nm)
     if dyn:
         tr.dynnat = True
         tr.call('other', dict(what='configure', reordering=True),
@@ -168,8 +179,8 @@ def inject_history(tid, seed, nvars, steps, tmpdir, dyn=False, p_inject=0.3):
             sub = rng.sample(names, k)
             tt = rng.randrange(1 << (1 << k))
             models = []
-            for a in range(1 << nvars):
-                idx = sum(((a >> names.index(x)) & 1) << j for j, x in enumerate(sub))
+            for a in range(1 << len(tr.names)):
+                idx = sum(((a >> tr.names.index(x)) & 1) << j for j, x in enumerate(sub))
                 if (tt >> idx) & 1:
                     models.append(a)
             from harness.drivers.dyn import dnf
